@@ -70,7 +70,7 @@ def op_strategy(weights=None):
         "add_chart": st.tuples(st.just("add_chart"), I, I, st.integers(0, 3), st.integers(0, 4), st.integers(0, 3)),
         "replace_data": st.tuples(st.just("replace_data"), I, I, st.integers(1, 3), st.integers(1, 4), st.integers(0, 3)),
         "add_movie": st.tuples(st.just("add_movie"), I, st.integers(0, 5), C, C, S, S),
-        "add_ole": st.tuples(st.just("add_ole"), I, I, st.integers(0, 2), st.booleans()),
+        "add_ole": st.tuples(st.just("add_ole"), I, I, st.integers(0, 11), st.booleans()),
         "ph_insert": st.tuples(st.just("ph_insert"), I, I, I),
         "set_text": st.tuples(st.just("set_text"), I, I, st.integers(0, 4), T),
         "para_op": st.tuples(st.just("para_op"), I, I, st.integers(0, 5), T),
@@ -452,6 +452,11 @@ class Interp:
         path, prog = OLE_FILES[which % len(OLE_FILES)]
         def f():
             kw = {"icon_file": _img(3)} if with_icon else {}
+            size = (which // len(OLE_FILES)) % 4     # neither / width only / height only / both (each is optional alone)
+            if size in (1, 3):
+                kw["width"] = 1828800
+            if size in (2, 3):
+                kw["height"] = 1371600
             info.update(added=c.add_ole_object(os.path.join(REPO, path), getattr(PROG_ID, prog), 100, 100, **kw),
                         slide=sl, container=c, depth=d, kind="ole")
         return self._call("add_ole", f)
